@@ -9,7 +9,7 @@ TRUSTED = ['Model/Data.v arrive: what each reader (pandas CSV/Excel, pyarrow, SQ
            'Model/Spec.v sval: NULL, a missing value and every na_values token are null']
 ASSUMES = ['string-valued cells (typed columns: C11); column names are plain identifiers for the non-CSV kinds']
 EX = mapcase.EX
-KINDS = ['csv', 'tsv', 'json', 'json', 'xml', 'xml', 'parquet', 'feather', 'orc', 'xlsx', 'view', 'sqltable', 'sqlquery']
+KINDS = ['csv', 'tsv', 'json', 'json', 'xml', 'xml', 'parquet', 'feather', 'orc', 'xlsx', 'view', 'sqltable', 'sqlquery', 'frame', 'frame', 'pydict', 'pyjson']
 VALS = ['a', 'b', 'x y', 'é', 'v1', 'None', 'nan', 'NULL', 'N/A', '', 'null', 'NaN', '<NA>', 'n/a']
 
 
